@@ -489,4 +489,5 @@ func runC06(c *explore.Ctx) {
 			}
 		}
 	}
+	zooEach(c, true, func(idx int64, z *zooSeg) { zooStored(c, idx, z) })
 }
